@@ -115,3 +115,8 @@ def callable_name(f):
     if type(f).__name__ == 'function':
         return f'{mod}:{nm}'
     return None
+
+
+def apply_lemma(name, **kw):
+    """lemma application: a proof step for the symbolic checker; natively a no-op"""
+    return True
